@@ -14,6 +14,7 @@ import (
 	"container/list"
 	"context"
 	"fmt"
+	"sort"
 
 	"github.com/ipfs/go-cid"
 	cidlink "github.com/ipld/go-ipld-prime/linking/cid"
@@ -92,7 +93,8 @@ type VersionedFetcher struct {
 	root  corekv.TxnStore
 	store datastore.Txn
 
-	queuedCids *list.List
+	queuedCids    *list.List
+	queuedHeights map[cid.Cid]uint64
 
 	documentACP immutable.Option[dac.DocumentACP]
 
@@ -225,6 +227,7 @@ func (vf *VersionedFetcher) SeekTo(ctx context.Context, c cid.Cid) error {
 func (vf *VersionedFetcher) seekTo(c cid.Cid) error {
 	// reinit the queued cids list
 	vf.queuedCids = list.New()
+	vf.queuedHeights = make(map[cid.Cid]uint64)
 
 	// recursive step through the graph
 	err := vf.seekNext(c, true)
@@ -232,24 +235,22 @@ func (vf *VersionedFetcher) seekTo(c cid.Cid) error {
 		return err
 	}
 
-	// if we have a queuedCIDs length of 0, means we don't need
-	// to do any more state serialization
-
-	// for cid in CIDs {
-	///
-	/// vf.merge(cid)
-	/// // Note: we need to determine what state we are "Merging"
-	/// // into. This isn't necessary for the base case where we only
-	/// // are concerned with generating the Versioned state for a single
-	/// // CID, but for multiple CIDs, or if we reuse the transient store
-	/// // as a cache, we need to swap out states to the parent of the current
-	/// // CID.
-	// }
+	// The target state is the result of applying the target commit and each of its ancestors
+	// exactly once. Parents must be applied before their children, so the queued composite
+	// commits are processed by ascending height.
+	queued := make([]cid.Cid, 0, vf.queuedCids.Len())
 	for ccv := vf.queuedCids.Front(); ccv != nil; ccv = ccv.Next() {
 		cc, ok := ccv.Value.(cid.Cid)
 		if !ok {
 			return client.NewErrUnexpectedType[cid.Cid]("queueudCids", ccv.Value)
 		}
+		queued = append(queued, cc)
+	}
+	sort.SliceStable(queued, func(i, j int) bool {
+		return vf.queuedHeights[queued[i]] < vf.queuedHeights[queued[j]]
+	})
+
+	for _, cc := range queued {
 		err := vf.merge(cc)
 		if err != nil {
 			return NewErrFailedToMergeState(err)
@@ -298,22 +299,26 @@ func (vf *VersionedFetcher) seekNext(c cid.Cid, topParent bool) error {
 		return NewErrVFetcherFailedToWriteBlock(err)
 	}
 
-	// add the CID to the queuedCIDs list
-	if topParent {
-		vf.queuedCids.PushFront(c)
-	}
-
 	// decode the block
 	block, err := coreblock.GetFromBytes(blk.RawData())
 	if err != nil {
 		return NewErrVFetcherFailedToDecodeNode(err)
 	}
 
-	// only seekNext on parent if we have a HEAD link
-	if len(block.Heads) != 0 {
-		err := vf.seekNext(block.Heads[0].Cid, true)
-		if err != nil {
-			return err
+	// add the CID to the queuedCIDs list
+	if topParent {
+		vf.queuedCids.PushFront(c)
+		vf.queuedHeights[c] = block.Delta.GetPriority()
+	}
+
+	// seekNext on every parent (a commit that merged diverged branches has several HEAD links).
+	// Blocks that have already been transferred are skipped above, so every commit is queued once.
+	if topParent {
+		for _, head := range block.Heads {
+			err := vf.seekNext(head.Cid, true)
+			if err != nil {
+				return err
+			}
 		}
 	}
 
@@ -395,8 +400,10 @@ func (vf *VersionedFetcher) merge(c cid.Cid) error {
 		}
 	}
 
+	// The block must be processed against the transient version store only: the heads it
+	// produces belong to the requested version, not to the document's current state.
 	err = coreblock.ProcessBlock(
-		vf.ctx,
+		datastore.CtxSetTxn(vf.ctx, vf.store),
 		mcrdt,
 		block,
 		cidlink.Link{
@@ -407,8 +414,9 @@ func (vf *VersionedFetcher) merge(c cid.Cid) error {
 		return err
 	}
 
-	// handle subgraphs
-	for _, l := range block.AllLinks() {
+	// handle subgraphs (the field level commits of this commit). The parent commits are not
+	// part of the subgraph: they are queued by seekNext and merged exactly once by seekTo.
+	for _, l := range block.Links {
 		err = vf.merge(l.Cid)
 		if err != nil {
 			return err
